@@ -18,10 +18,13 @@ MANIFEST = {
             "weighted key selection never panics. Tie: same translator as C08; harness feeds exhaustive short strings, truncations "
             "of valid messages at every offset, hostile length prefixes/varints and mutations to every generated decoder, and "
             "malformed keys/bitmaps/proofs to NewBlock/NewTransaction/BLS/certificate/smt.Verify/rmt.VerifyProof; a recovered "
-            "panic or timeout is a violation with the input; decode outcomes are compared with the model in Coq.",
+            "panic or timeout is a violation with the input; decode outcomes are compared with the model in Coq. The same input "
+            "classes go through the real gossip validators/handlers (block, transaction, single commit), fork-choice process, "
+            "verifyAggregateCommit, the sync and txpool RPC handlers, Ed25519 verification and the raw libp2p request/response "
+            "streams; allocation per decode on length-prefix bombs is measured against the proved bound.",
     "note": "SMT/RMT verification and blst are covered by the harness only (outcome classes), not modelled here; memory/time "
-            "bounds are the model's step bound (one byte consumed per loop iteration) plus the harness watchdog. p2p validators that "
-            "need a live libp2p host are not driven; their payload decoders (Message, Request, responseMsg, sync payloads) are.",
+            "bounds are the model's step/allocation bounds plus the harness watchdog and the measured TotalAlloc per call. Known: "
+            "sync.Downloader.Start does not terminate against a peer sending empty block lists (reported to its owner).",
 }
 IMPORTS = c08.IMPORTS + "\nFrom LE Require Import Codec.Bits Corr.C09."
 
